@@ -371,6 +371,11 @@ func (fr *Frame) binop(op token.Token, a, b *Term, ta, tb types.Type, pos token.
 		case token.ADD:
 			r := UF("str_cat", SStr, a, b)
 			fr.assumeG(Eq(StrLen(r), BVAdd(StrLen(a), StrLen(b))))
+			if k, ok := strByTerm[a.id]; ok && len(k) <= 16 {
+				for i := 0; i < len(k); i++ {
+					fr.assumeG(Eq(UF("str_at", BV(8), r, BVLit(uint64(i), 64)), BVLit(uint64(k[i]), 8)))
+				}
+			}
 			return r
 		case token.EQL:
 			return Eq(a, b)
